@@ -30,7 +30,9 @@ struct Rep { int opaque; };
 
 /* ghosts */
 extern int gk, gk_kind, gk_pos;
-#define BITS(x) (*(const uint64_t*)&(x))
+/* bit-exact equality of two non-NaN doubles: equal and same sign (distinguishes +0.0 / -0.0) */
+#define SAME(a, b) ((a) == (b) && __CPROVER_signd(a) == __CPROVER_signd(b))
+#define PZERO(a)   ((a) == 0.0 && !__CPROVER_signd(a))
 
 /* ---- cache / state access (assumed) ---- */
 static const struct SBModelCache* getModelCache(const struct Rep* self, const struct State* s) { return s->mc; }
